@@ -3,7 +3,5 @@ package main
 import "sort"
 
 
-func genJson(c *Ctx) string    { return genHeader }
-func genEffects(c *Ctx) string { return genHeader }
 
 func sortStrings(s []string) { sort.Strings(s) }
